@@ -12,12 +12,17 @@ PROP_FILE = "Properties/C15.v"
 
 TRUSTED = [
     "translator/c15.py (ipc_kernel guards + 3x3 literal, the statement of simple_collection, the mask assignment of "
-    "apply_simple_full_well_capacity, both branches of apply_qe -> Gen_C15.src_*; fails closed on any other shape)",
+    "apply_simple_full_well_capacity, both branches of apply_qe, the argument-or-characteristics selection and the "
+    "guards of simple_full_well and simple_conversion, the range checks and the capacity selection of cdm and the "
+    "keywords it hands to run_cdm_* -> Gen_C15.src_*; fails closed on any other shape)",
     "correspondence harness: harness/props/c15.py generators, harness/drivers/c15.py, float.hex() -> exact rationals; "
     "frames are transposed to per-pixel species lists (persistence) and to lines in transfer order (CDM) in Python",
     "modelled, not verified: numpy/numba elementwise float64 arithmetic is exact on the generated dyadic inputs "
     "(bit budget enforced by the generator), numba fastmath reassociation is harmless on exact values, "
-    "array.astype(int) truncates toward zero, np.random.binomial returns a value in [0, n]",
+    "array.astype(int) truncates toward zero, np.random.binomial returns a value in [0, n], all n for p = 1 and 0 for "
+    "p = 0; np.floor_divide(position, pixel size) is the floor of the exact quotient on the generated dyadic positions; "
+    "pandas keeps the rows of the particle frame (concat) - the particle frame itself is not modelled, only the "
+    "sequence of add_charge_array / add_charge calls and the re-binned array",
     "astropy.convolve_fft (FFT rounding; kernel normalisation is the identity for weights summing to one): compared "
     "with relative tolerance 1e-9 on the implementation side only",
     "CDM: exp / pow are abstract range-constrained factors in the theorem and a**beta is taken as a * a**(beta-1); "
@@ -29,8 +34,10 @@ TRUSTED = [
 ASSUMPTIONS = [
     "documented ranges: frames >= 0; 0 <= QE <= 1; fwc >= 0; IPC couplings accepted by ipc_kernel's guards; persistence: "
     "delta_t >= 0, time constants > 0, densities/proportions/density map in [0,1], capacities >= 0, trapped charge >= 0, "
-    "equally long parameter lists, at least one species; CDM: 0 <= beta <= 1, 0 <= vg <= 1, 0 <= fwc <= 1e7, "
-    "0 <= t <= 10, tr > 0, nt >= 0, sigma >= 0",
+    "equally long parameter lists, at least one species; CDM: 0 <= beta <= 1, 0 < vg <= 1, 0 < fwc <= 1e7, "
+    "0 <= t <= 10 (the wrapper's checks, read from the source), tr > 0, nt >= 0, sigma >= 0; collection: non-negative "
+    "charge arrays, particles of type 'e' positioned inside the detector area; full well / QE: the model argument "
+    "overrides the detector characteristics (0.0 is a given argument)",
     "QE sampling: the draw is any function with 0 <= binomial(n, q) <= n (Section hypothesis)",
     "CDM theorem: arithmetic over Q (exact), not binary64; traps empty at the start of a call",
 ]
@@ -52,6 +59,10 @@ def ql(xs) -> str:
 
 def qll(xss) -> str:
     return core.clist(ql(xs) for xs in xss)
+
+
+def qopt(x) -> str:
+    return "None" if x is None else f"(Some {q(x)})"
 
 
 def dy(r, hi: int, bits: int) -> float:
@@ -95,6 +106,128 @@ def gen_collect(r):
     px, k1 = gen_frame(r, shape)
     ch, k2 = gen_frame(r, shape)
     return dict(kind="collect", det=r.choice(["ccd", "cmos"]), pixel=px, charge=ch, fk=f"{k1}+{k2}")
+
+
+PIXEL_SIZES = [10.0, 8.0, 5.0, 2.5, 18.0]
+HELD = ["P", "P", "AP", "PA", "APA", "PP", "PAP", "A", "AA", "AAP"]
+
+
+def gen_particles(r, shape, sv, sh):
+    rows, cols = shape
+    n = r.choice([1, 1, 2, 3, 4, 6])
+    ps = []
+    for _ in range(n):
+        i, j = r.randrange(rows), r.randrange(cols)
+        if ps and r.random() < 0.3:       # several clusters in one pixel
+            i, j = ps[0][3], ps[0][4]
+        ov, oh = (r.choice([0.0, 0.25, 0.5, 0.5, 0.75, 0.96875]) for _ in range(2))
+        num = r.choice([float(r.randrange(1, 5000)), r.randrange(1, 4000) / 4.0, 120.0, 0.5])
+        ps.append([(i + ov) * sv, (j + oh) * sh, num, i, j])
+    return [q_[:3] for q_ in ps]
+
+
+def gen_collectp(r, held=None):
+    """charge held as particles / as array / both at collection time"""
+    shape = r.choice(SHAPES)
+    sv, sh = r.choice(PIXEL_SIZES), r.choice(PIXEL_SIZES)
+    px, k1 = gen_frame(r, shape, kind=r.choice(["empty", "random", "uniform", "sparse"]))
+    held = held or r.choice(HELD)
+    ops = []
+    for ch in held:
+        if ch == "A":
+            a, _ = gen_frame(r, shape, kind=r.choice(["random", "sparse", "hot", "uniform"]), hi=3000, bits=2)
+            ops.append(dict(op="array", a=flat(a)))
+        else:
+            ops.append(dict(op="particles", ps=gen_particles(r, shape, sv, sh)))
+    return dict(kind="collectp", det=r.choice(["ccd", "cmos"]), shape=list(shape), sv=sv, sh=sh, pixel=px, ops=ops,
+                held=held, fk=k1)
+
+
+FRACS = dict(frac_lo=[0.125, 0.25, 0.375], frac_half=[0.5], frac_hi=[0.625, 0.75, 0.875])
+
+
+def gen_photon_frame(r, shape):
+    """photon frames that are not integer valued: fractional parts below / at / above one half, faint signals"""
+    rows, cols = shape
+    fk = r.choice(["frac_lo", "frac_half", "frac_hi", "frac_hi", "faint", "mixed"])
+    hi = r.choice([1, 3, 50, 3000])
+
+    def one():
+        if fk == "faint":
+            return r.choice([0.125, 0.25, 0.5, 0.625, 0.75, 0.875, 0.96875])
+        fr = r.choice(FRACS[fk]) if fk != "mixed" else r.choice([0.0, 0.25, 0.5, 0.75, 0.875])
+        return r.randrange(0, hi) + fr
+
+    return [[one() for _ in range(cols)] for _ in range(rows)], fk
+
+
+def gen_q(r, samp):
+    if samp:      # {0, small, one half, near one, one}
+        return r.choice([0.0, 2.0 ** -6, 0.5, 1.0 - 2.0 ** -10, 1.0, 1.0, 0.9, r.random()])
+    m = r.randrange(0, 9)
+    return r.choice([0.0, 1.0, 0.5, 2.0 ** -6, 1.0 - 2.0 ** -8, r.randrange(0, (1 << m) + 1) / (1 << m)])
+
+
+def gen_qe_frac(r):
+    shape = r.choice(SHAPES)
+    samp = r.random() < 0.6
+    ph, fk = gen_photon_frame(r, shape)
+    return dict(kind="qe", sampling=samp, q=gen_q(r, samp), photon=ph, seed=r.randrange(1 << 30),
+                det=r.choice(["ccd", "cmos"]), path=r.choice(["func", "model"]), fk=fk)
+
+
+def gen_qe_select(r):
+    """simple_conversion: the efficiency as model argument, from the detector characteristics, or both"""
+    shape = r.choice(SHAPES)
+    samp = r.random() < 0.5
+    if r.random() < 0.5:
+        ph, fk = gen_photon_frame(r, shape)
+    else:
+        ph, fk = gen_frame(r, shape, hi=r.choice([5, 50, 3000]), bits=2)
+    arg = r.choice([None, None, 0.0, 0.0, 1.0, 0.5, 2.0 ** -6, 1.0 - 2.0 ** -10, 0.25])
+    char = r.choice([None, 0.0, 1.0, 1.0, 0.5, 0.25, 0.75])
+    if r.random() < 0.08:
+        arg = r.choice([-0.25, 1.5, 2.0])            # outside the documented range: must raise
+    return dict(kind="qe", sampling=samp, arg=arg, char=char, photon=ph, seed=r.randrange(1 << 30),
+                det=r.choice(["ccd", "cmos"]), path="select", fk=fk,
+                src=("none" if arg is None and char is None else "char" if arg is None else
+                     "arg" if char is None else "both"))
+
+
+def gen_qe_map(r):
+    """conversion_with_qe_map: one efficiency per pixel"""
+    shape = r.choice(SHAPES)
+    samp = r.random() < 0.5
+    if r.random() < 0.6:
+        ph, fk = gen_photon_frame(r, shape)
+    else:
+        ph, fk = gen_frame(r, shape, hi=r.choice([5, 50, 3000]), bits=2)
+    qs = [gen_q(r, samp) if samp else r.choice([0.0, 1.0, 0.5, 2.0 ** -6, r.randrange(0, 257) / 256])
+          for _ in range(shape[0] * shape[1])]
+    bad = r.random() < 0.1
+    if bad:
+        qs[r.randrange(len(qs))] = r.choice([1.25, -0.25, 2.0])
+    return dict(kind="qe", sampling=samp, qs=qs, photon=ph, seed=r.randrange(1 << 30), det=r.choice(["ccd", "cmos"]),
+                path="map", fk=fk, map_in_range=not bad)
+
+
+def gen_fullwell_sources(r):
+    """both capacity sources, in every order relation: argument < / = / > characteristics, zero, absent"""
+    shape = r.choice(SHAPES)
+    base = float(r.choice([1, 100, 1000, 1999.75, 65536, r.randrange(1, 3000), dy(r, 2000, 2) + 0.25]))
+    rel = r.choice(["arg<char", "arg=char", "arg>char", "arg>char", "arg=0", "char=0", "char=0", "arg only",
+                    "char only", "neither", "arg<0"])
+    other = base + float(r.choice([0.25, 1, 100, 5000, 100000]))
+    arg, char = dict([
+        ("arg<char", (base, other)), ("arg=char", (base, base)), ("arg>char", (other, base)),
+        ("arg=0", (0.0, base)), ("char=0", (base, 0.0)), ("arg only", (base, None)), ("char only", (None, base)),
+        ("neither", (None, None)), ("arg<0", (-float(r.choice([1, 0.25, 100])), r.choice([None, base]))),
+    ])[rel]
+    x, fk = gen_frame(r, shape, hi=r.choice([2000, 200000]))
+    marks = [v for v in (arg, char) if v is not None and v >= 0]
+    for v in marks * 2:      # plant values at / around both capacities
+        x[r.randrange(shape[0])][r.randrange(shape[1])] = max(0.0, v + r.choice([-0.25, 0.0, 0.25, 1.0, 1000.0]))
+    return dict(kind="fullwell", path="sources", arg=arg, char=char, x=x, det=r.choice(["ccd", "cmos"]), rel=rel, fk=fk)
 
 
 def gen_qe(r):
@@ -201,11 +334,47 @@ def gen_persist(r, force_species=None):
                 cmap=cmap, pix0=flat(pix0), trap0=trap0, steps=steps, fk=fk)
 
 
-def gen_cdm(r, exact=False):
+def gen_contrast(r, direction, length, width):
+    """strong contrast ALONG the transfer direction: a hot pixel or a bright line (across the transfer direction)
+    early in the line, faint background after it - the traps filled by the bright packet meet faint packets"""
+    bg = float(r.choice([0, 1, 1, 15, 30, 100, 0.5]))
+    hot = float(r.choice([1000, 50000, 60000, 90000, 5000]))
+    lines = [[bg] * length for _ in range(width)]          # lines in transfer order
+    pos = r.randrange(0, max(1, length // 2))
+    fk = r.choice(["hot/bg", "line/bg"])
+    if fk == "hot/bg":
+        lines[r.randrange(width)][pos] = hot
+    else:
+        for ln in lines:
+            ln[pos] = hot
+    if r.random() < 0.3:
+        lines[r.randrange(width)][r.randrange(length)] = float(r.choice([hot, 300]))
+    fr = [list(row) for row in zip(*lines)] if direction == "parallel" else lines
+    return fr, fk
+
+
+def gen_cdm(r, exact=False, contrast=None):
     shape = r.choice(SHAPES[3:] if not exact else [(1, 1), (2, 1), (1, 3), (3, 2), (2, 3), (4, 2), (3, 3)])
     n = r.randrange(1, 6) if not exact else r.choice([1, 1, 2, 2, 3])
     direction = r.choice(["parallel", "serial"])
+    # (measured: a line of one packet, an empty frame, t = 0 or all cross sections 0 leave the frame untouched -
+    #  keep those rare but present)
+    tlen = shape[0] if direction == "parallel" else shape[1]
+    if tlen == 1 and shape != (1, 1) and r.random() < 0.85:
+        direction = "serial" if direction == "parallel" else "parallel"
     fr, fk = gen_frame(r, shape, hi=r.choice([50, 2000, 60000]), bits=0)
+    if fk == "empty" and r.random() < 0.7:
+        fr, fk = gen_frame(r, shape, kind=r.choice(["random", "hot", "sparse"]), hi=r.choice([50, 2000, 60000]), bits=0)
+    if contrast is None:
+        contrast = r.random() < (0.25 if exact else 0.45)
+    if contrast:
+        # (exact slice: the Q model does not normalise fractions, so lines stay short)
+        length, width = (r.choice([3, 4]), r.choice([1, 1, 2])) if exact else \
+                        (r.choice([3, 4, 5, 6, 8, 10]), r.choice([1, 2, 3]))
+        fr, fk = gen_contrast(r, direction, length, width)
+        shape = (len(fr), len(fr[0]))
+        if exact:
+            n = min(n, 2)
     p = dict(kind="cdm", direction=direction, frame=fr, fk=fk, exact=exact)
     if exact:
         # beta = 1, g dyadic; capture / release factors at the exact ends {0, 1} or (small frames) general
@@ -213,7 +382,7 @@ def gen_cdm(r, exact=False):
         p["fwc"] = float(2 ** r.randrange(10, 17))
         p["vg"] = 2.0 ** -r.randrange(20, 34)
         p["vth"] = 1.0e7
-        general = shape[0] * shape[1] <= 3 and n <= 2 and r.random() < 0.7
+        general = shape[0] * shape[1] <= 3 and n <= 2 and r.random() < 0.7 and not contrast
         p["t"] = r.choice([2.0 ** -10, 2.0 ** -6, 1.0])
         gk = [2.0 ** -r.randrange(0, 4) * r.choice([1, 3]) for _ in range(n)]
         p["nt"] = [g * p["fwc"] / (2.0 * p["vg"]) for g in gk]       # g = 2 nt vg / fwc exactly
@@ -223,6 +392,8 @@ def gen_cdm(r, exact=False):
         else:
             p["tr"] = [r.choice([math.inf, 1.0e-9 * p["t"]]) for _ in range(n)]
             p["sigma"] = [r.choice([0.0, 1.0e5]) for _ in range(n)]
+            if not any(p["sigma"]) and r.random() < 0.8:
+                p["sigma"][r.randrange(n)] = 1.0e5
         p["slice"] = "general" if general else "ends"
         p["path"] = "func"
         if direction == "parallel" and r.random() < 0.3:
@@ -231,27 +402,65 @@ def gen_cdm(r, exact=False):
     p["beta"] = r.choice([0.0, 1.0, 0.3, 0.5, round(r.random(), 3)])
     p["fwc"] = float(r.choice([1000, 100000, 1e7, r.randrange(100, 200000)]))
     p["vg"] = r.choice([1e-10, 1e-7, 1e-12, 1.0, 10 ** r.uniform(-12, -6)])
-    p["t"] = r.choice([1e-3, 1e-5, 1.0, 10.0, 0.0, 10 ** r.uniform(-6, 1)])
+    p["t"] = r.choice([1e-3, 1e-5, 1.0, 10.0, 1e-2, 0.0, 10 ** r.uniform(-6, 1), 10 ** r.uniform(-4, 0),
+                       10 ** r.uniform(-4, 0), 10 ** r.uniform(-6, 1), 1e-3, 9.4722e-4])
     p["vth"] = 1.0e7
     p["tr"] = [10 ** r.uniform(-6, 1) for _ in range(n)]
     p["nt"] = [10 ** r.uniform(6, 12) if r.random() < 0.9 else 0.0 for _ in range(n)]
     p["sigma"] = [10 ** r.uniform(-17, -13) for _ in range(n)]
+    if contrast and r.random() < 0.6:
+        # heavy trapping, slow release: densities large enough for the traps to sit above the equilibrium of the
+        # faint packets that follow the bright one
+        p["beta"] = r.choice([0.0, 0.3, 0.3, 0.5, 1.0])
+        p["fwc"] = float(r.choice([10000, 100000]))
+        p["vg"] = r.choice([1.0e-10, 1.62e-10, 1.5e-10])
+        p["t"] = r.choice([1.0e-3, 9.4722e-4, 1.0e-2])
+        p["tr"] = [p["t"] * 10 ** r.uniform(0, 3) for _ in range(n)]
+        p["nt"] = [10 ** r.uniform(10, 13) for _ in range(n)]
+        p["sigma"] = [10 ** r.uniform(-15, -13) for _ in range(n)]
+        p["tuned"] = True
     p["path"] = r.choice(["func", "model"])
     if p["path"] == "model":
         p["times"] = r.choice([1, 1, 2, 3])
     if direction == "parallel" and r.random() < 0.3:
         p["inj"], p["ninj"] = True, shape[0]
-    k = r.random()
-    if k < 0.06:      # the wrapper's own defaults for volume and period
+    k = r.random() if not contrast else 1.0
+    # the zero divisors: through the wrapper only (its range checks are the property's documented ranges)
+    if k < 0.05:      # the wrapper's own defaults for volume and period
         p["vg"], p["t"], p["corner"] = 0.0, 0.0, "vg=0,t=0"
-    elif k < 0.10:
+    elif k < 0.08:
         p["vg"], p["corner"] = 0.0, "vg=0"
-    elif k < 0.13 and p["beta"] > 0:
+    elif k < 0.11 and p["beta"] > 0:
         p["fwc"], p["corner"] = 0.0, "fwc=0"
+    elif k < 0.13:
+        p["fwc"], p["beta"], p["corner"] = 0.0, 0.0, "fwc=0,beta=0"
+    elif k < 0.19:    # other values the wrapper must refuse
+        which = r.choice(["vg>1", "beta>1", "beta<0", "fwc>1e7", "t>10", "t<0", "vg<0"])
+        p["corner"] = which
+        if which == "vg>1":
+            p["vg"] = 2.0
+        elif which == "beta>1":
+            p["beta"] = 1.5
+        elif which == "beta<0":
+            p["beta"] = -0.25
+        elif which == "fwc>1e7":
+            p["fwc"] = 1.0e8
+        elif which == "t>10":
+            p["t"] = 20.0
+        elif which == "t<0":
+            p["t"] = -1.0
+        else:
+            p["vg"] = -1.0e-10
+    if "corner" in p:
+        p["path"] = "model"
+        p.setdefault("times", 1)
     return p
 
 
-GENS = [("collect", gen_collect, 24, 80), ("qe", gen_qe, 40, 160), ("fullwell", gen_fullwell, 30, 120),
+GENS = [("collect", gen_collect, 24, 80), ("collectp", gen_collectp, 36, 160),
+        ("qe", gen_qe, 30, 140), ("qe_frac", gen_qe_frac, 30, 140), ("qe_select", gen_qe_select, 36, 140),
+        ("qe_map", gen_qe_map, 24, 120),
+        ("fullwell", gen_fullwell, 24, 100), ("fullwell_sources", gen_fullwell_sources, 40, 160),
         ("kernel", gen_kernel, 60, 240), ("ipc", gen_ipc, 40, 160), ("persist", gen_persist, 110, 700),
         ("cdm", gen_cdm, 70, 300), ("cdmx", lambda r: gen_cdm(r, exact=True), 40, 160)]
 
@@ -262,7 +471,14 @@ def corpus_cases():
              dmap=None, cmap=None, pix0=[100.0], trap0=[[0.0], [0.0]], steps=[dict(dt=1.0, add=[0.0])], fk="corpus")
     w2 = dict(w, full=True, dmap=[1.0], path="model")
     w3 = dict(w, taus=[1.0], dens=[0.5], trap0=[[0.0]], caps=[8.0])      # one species, clipped: conserved
-    cs = [w, w2, w3]
+    # the former C15-cdm-nan inputs (the wrapper's own defaults; zero capacity with beta > 0)
+    n1 = dict(kind="cdm", direction="parallel", frame=[[0.0], [0.0], [11496.0], [0.0]], fk="corpus", exact=False,
+              beta=0.3, fwc=100000.0, vg=0.0, t=0.0, vth=1.0e7, tr=[0.03], nt=[2.0e12], sigma=[1.0e-15], path="model",
+              times=1, corner="vg=0,t=0")
+    n2 = dict(n1, direction="serial", frame=[[0.0, 0.0, 11496.0, 0.0]], vg=1.0e-10, t=1.0e-3, fwc=0.0, corner="fwc=0")
+    w4 = dict(w, taus=[1.0, 1.0, 4.0], dens=[0.5, 0.25, 0.125], trap0=[[0.0], [0.0], [0.0]], caps=[8.0, 4.0, 2.0],
+              steps=[dict(dt=2.0, add=[0.0]), dict(dt=2.0, add=[50.0])])
+    cs = [w, w2, w3, w4, n1, n2]
     d = core.VERIF / "harness" / "corpus" / "C15"
     if d.exists():
         for f in sorted(d.glob("*.json")):
@@ -290,6 +506,68 @@ def exhaustive_persist():
     return cases
 
 
+def exhaustive_small_scope():
+    """Thorough tier: small scopes enumerated completely (no random choice)."""
+    import itertools
+    cases = []
+    # collection: every sequence of 1..3 container operations over {array, particles} on a 2x2 detector; the
+    # particles of the k-th particle operation visit every pixel, at the pixel edge and at its centre
+    arr = [[1.0, 2.5, 0.0, 40.0], [0.0, 0.0, 7.25, 0.0], [3.0, 0.0, 0.0, 0.5]]
+    for n in (1, 2, 3):
+        for held in itertools.product("AP", repeat=n):
+            for off in (0.0, 0.5):
+                ops, na, npart = [], 0, 0
+                for ch in held:
+                    if ch == "A":
+                        ops.append(dict(op="array", a=arr[na]))
+                        na += 1
+                    else:
+                        ps = [[(i + off) * 10.0, (j + off) * 8.0, float(100 * npart + 10 * i + j + 1)]
+                              for i in range(2) for j in range(2)]
+                        ops.append(dict(op="particles", ps=ps + [ps[npart]]))
+                        npart += 1
+                cases.append(dict(kind="collectp", det="ccd", shape=[2, 2], sv=10.0, sh=8.0,
+                                  pixel=[[5.0, 0.0], [0.25, 1000.0]], ops=ops, held="".join(held), fk="exhaustive"))
+    # full well: both capacity sources in every relation, pixels at and around both values
+    x = [[0.0, 49.75, 50.0, 50.25, 99.75, 100.0, 100.25, 149.75, 150.0, 150.25, 1000.0]]
+    for arg in (None, 0.0, 50.0, 100.0, 150.0, -1.0):
+        for char in (None, 0.0, 50.0, 100.0, 150.0):
+            rel = ("neither" if arg is None and char is None else "char only" if arg is None else "arg<0" if arg < 0
+                   else "arg only" if char is None else "arg=0" if arg == 0 else "char=0" if char == 0
+                   else "arg<char" if arg < char else "arg=char" if arg == char else "arg>char")
+            cases.append(dict(kind="fullwell", path="sources", arg=arg, char=char, x=x, det="ccd", rel=rel,
+                              fk="exhaustive"))
+    # photo-conversion: efficiency source x value x sampling on a frame of fractional photon counts
+    ph = [[0.0, 0.25, 0.5, 0.75, 1.0, 1.5, 2.75, 100.5]]
+    for arg in (None, 0.0, 2.0 ** -6, 0.5, 1.0 - 2.0 ** -10, 1.0, 1.5, -0.25):
+        for char in (None, 0.0, 0.25, 1.0):
+            for samp in (False, True):
+                cases.append(dict(kind="qe", sampling=samp, arg=arg, char=char, photon=ph, seed=len(cases), det="ccd",
+                                  path="select", fk="exhaustive",
+                                  src=("none" if arg is None and char is None else "char" if arg is None else
+                                       "arg" if char is None else "both")))
+    # CDM: a bright packet at every position of a line of 3..5 packets on three backgrounds, both directions,
+    # one and two trap species, two parameter vectors with heavy trapping and slow release
+    pars = [dict(beta=0.3, fwc=100000.0, vg=1.0e-10, t=1.0e-3, tr=[0.03, 0.3], nt=[2.0e12, 1.0e12],
+                 sigma=[1.0e-15, 5.0e-16]),
+            dict(beta=1.0, fwc=10000.0, vg=1.62e-10, t=9.4722e-4, tr=[0.5, 0.005], nt=[5.0e11, 4.0e12],
+                 sigma=[2.0e-14, 1.0e-15])]
+    for length in (3, 4, 5):
+        for pos in range(length):
+            for bg in (0.0, 1.0, 30.0):
+                for direction in ("parallel", "serial"):
+                    for nsp in (1, 2):
+                        for pv in pars:
+                            line = [bg] * length
+                            line[pos] = 60000.0
+                            fr = [[v] for v in line] if direction == "parallel" else [line]
+                            cases.append(dict(kind="cdm", direction=direction, frame=fr, fk="exhaustive", exact=False,
+                                              beta=pv["beta"], fwc=pv["fwc"], vg=pv["vg"], t=pv["t"], vth=1.0e7,
+                                              tr=pv["tr"][:nsp], nt=pv["nt"][:nsp], sigma=pv["sigma"][:nsp],
+                                              path="func"))
+    return cases
+
+
 def gen_cases(ctx: Ctx, salt="cases", scale=1.0):
     r = ctx.rng(salt)
     cases = list(corpus_cases()) if salt == "cases" else []
@@ -299,9 +577,13 @@ def gen_cases(ctx: Ctx, salt="cases", scale=1.0):
     # fixed adversarial list aimed at the named mutations
     for n in range(1, 6):
         cases.append(gen_persist(r, force_species=n))
+    for held in ("P", "AP", "PA"):
+        cases.append(gen_collectp(r, held=held))
+    for _ in range(ctx.budget(6, 30)):
+        cases.append(gen_cdm(r, contrast=True))
     if not ctx.quick and salt == "cases":
-        cases += exhaustive_persist()
-    order = {"collect": 0, "qe": 1, "fullwell": 2, "kernel": 3, "ipc": 4, "persist": 5, "cdm": 6}
+        cases += exhaustive_persist() + exhaustive_small_scope()
+    order = {"collect": 0, "collectp": 0, "qe": 1, "fullwell": 2, "kernel": 3, "ipc": 4, "persist": 5, "cdm": 6}
     cases.sort(key=lambda c: order[c["kind"]])   # contiguous kinds: a worker compiles few numba functions
     return cases
 
@@ -319,9 +601,28 @@ def emit_case(c, o) -> str:
     bad = "raise" in o
     if k == "collect":
         return f"KCollect {ql(flat(c['pixel']))} {ql(flat(c['charge']))} {ql([] if bad else o['out'])}"
+    if k == "collectp":
+        ops = []
+        for op in c["ops"]:
+            if op["op"] == "array":
+                ops.append(f"OpArray {ql(op['a'])}")
+            else:
+                ps = core.clist(f"{{| p_ver := {q(v)}; p_hor := {q(h)}; p_num := {q(n)} |}}" for v, h, n in op["ps"])
+                ops.append(f"OpParticles {ps}")
+        return (f"KCollectP {core.cnat(c['shape'][0])} {core.cnat(c['shape'][1])} {q(c['sv'])} {q(c['sh'])} "
+                f"{ql(flat(c['pixel']))} {core.clist(ops)} {ql([] if bad else o['out'])}")
+    if k == "qe" and c["path"] == "map":
+        out = "None" if bad else f"(Some {ql(o['out'])})"
+        return f"KQeMap {core.cbool(c['sampling'])} {ql(c['qs'])} {ql(flat(c['photon']))} {out}"
+    if k == "qe" and c["path"] == "select":
+        out = "None" if bad else f"(Some {ql(o['out'])})"
+        return (f"KQeSel {core.cbool(c['sampling'])} {qopt(c['arg'])} {qopt(c['char'])} {ql(flat(c['photon']))} {out}")
     if k == "qe":
         ctor = "KQeOn" if c["sampling"] else "KQeOff"
         return f"{ctor} {q(c['q'])} {ql(flat(c['photon']))} {ql([] if bad else o['out'])}"
+    if k == "fullwell" and c["path"] == "sources":
+        out = "None" if bad else f"(Some ({ql(o['o1'])}, {ql(o['o2'])}))"
+        return f"KFullWellS {qopt(c['arg'])} {qopt(c['char'])} {ql(flat(c['x']))} {out}"
     if k == "fullwell":
         out = "None" if bad else f"(Some ({ql(o['o1'])}, {ql(o['o2'])}))"
         return f"KFullWell {q(c['c'])} {ql(flat(c['x']))} {out}"
@@ -350,11 +651,18 @@ def emit_case(c, o) -> str:
         par = c["direction"] == "parallel"
         fr = c["frame"]
         lin = [list(col) for col in zip(*fr)] if par else fr
+        if bad and c["path"] == "model" and o.get("raise") == "ValueError":
+            return f"KCdmG {q(c['vg'])} {q(c['beta'])} {q(c['fwc'])} {q(c['t'])} true"
         if bad or "nonfinite" in o:
             return f"KCdm {qll(lin)} nil"
         if c.get("exact") and all(math.isfinite(fx(v)) for v in o["gs"] + o["pcs"] + o["rs"]):
             inj = f"(Some {q(float(c['ninj']))})" if c.get("inj") else "None"
             return f"KCdmX {ql(o['gs'])} {ql(o['pcs'])} {ql(o['rs'])} {inj} {qll(o['lines_in'])} {qll(o['lines_out'])}"
+        if "tbls" in o:
+            inj = f"(Some {q(float(c['ninj']))})" if c.get("inj") else "None"
+            tbls = core.clist(core.clist(core.clist(f"({q(f[0])}, {q(f[1])})" for f in row) for row in tbl)
+                              for tbl in o["tbls"])
+            return f"KCdmT {ql(o['gs'])} {ql(o['rs'])} {inj} {tbls} {qll(o['lines_in'])} {qll(o['lines_out'])}"
         return f"KCdm {qll(o['lines_in'])} {qll(o['lines_out'])}"
     raise ValueError(k)
 
@@ -378,10 +686,21 @@ def fr_(h) -> Fraction:
 def classify(c, o, as_modelled: bool):
     """Python-side description of a case that Coq judged to violate the specification (signature + shrink only)."""
     k = c["kind"]
+    if k == "fullwell" and c["path"] == "sources":
+        return "fullwell_sources", dict(kind=k, relation=c["rel"], raised=("raise" in o)), None
+    if k == "qe" and c["path"] == "map":
+        return "qe_map", dict(kind=k, sampling=c["sampling"], raised=("raise" in o), map_in_range=c["map_in_range"]), None
+    if k == "qe" and c["path"] == "select":
+        return "qe_sources", dict(kind=k, sampling=c["sampling"], source=c["src"], raised=("raise" in o),
+                                  arg_zero=(c["arg"] == 0)), None
+    if k == "cdm" and "raise" in o:
+        return "cdm_refused", dict(kind=k, error=o["raise"], corner=c.get("corner", "none")), None
     if "raise" in o:
         return "raises", dict(kind=k, error=o["raise"]), None
     if k == "collect":
         return "collection_exact", dict(kind=k), None
+    if k == "collectp":
+        return "collection_exact", dict(kind=k, held=c["held"]), None
     if k == "qe":
         return ("qe_sampling_bounds" if c["sampling"] else "qe_exact"), dict(kind=k, sampling=c["sampling"]), None
     if k == "fullwell":
@@ -401,7 +720,20 @@ def classify(c, o, as_modelled: bool):
             else:
                 corner = c.get("corner", "none")
             return "cdm_nonfinite", dict(kind=k, corner=corner), None
-        return "cdm_bounds", dict(kind=k, direction=c["direction"]), None
+        # shrink to the first line (column for parallel, row for serial) that breaks the bound
+        shrunk, why = None, "bounds"
+        for j, (li, lo) in enumerate(zip(o["lines_in"], o["lines_out"])):
+            li, lo = [fr_(h) for h in li], [fr_(h) for h in lo]
+            slack = sum(li) * Fraction(1, 10 ** 9)
+            neg = any(v < 0 for v in lo)
+            over = any(sum(lo[:m]) > sum(li[:m]) + slack for m in range(1, len(li) + 1))
+            if neg or over:
+                why = "negative" if neg else "creation"
+                line = [float(v) for v in li]
+                fr = [[v] for v in line] if c["direction"] == "parallel" else [line]
+                shrunk = dict(c, frame=fr, fk="shrunk", times=1)
+                break
+        return "cdm_bounds", dict(kind=k, direction=c["direction"], change=why), shrunk
     # persistence: find the first (step, pixel) that breaks the account
     npx, n = len(c["pix0"]), len(c["taus"])
     pix = [Fraction(v) for v in c["pix0"]]
@@ -438,8 +770,13 @@ def is_nontrivial(c) -> bool:
     k = c["kind"]
     if k == "collect":
         return any(flat(c["pixel"])) and any(flat(c["charge"]))
+    if k == "collectp":
+        return True
     if k == "qe":
         return any(flat(c["photon"]))
+    if k == "fullwell" and c["path"] == "sources":
+        cap = c["arg"] if c["arg"] is not None else c["char"]
+        return cap is None or cap < 0 or any(v > cap for v in flat(c["x"]))
     if k == "fullwell":
         return any(v > c["c"] for v in flat(c["x"])) or c["c"] < 0
     if k == "kernel":
@@ -451,6 +788,21 @@ def is_nontrivial(c) -> bool:
     return any(v > 0.01 for v in flat(c["frame"]))
 
 
+def coq_eval_limited(ctx: Ctx, files):
+    """coq_eval_many with a cap on the address space of the coqc processes (a case whose exact fractions explode
+    must fail - and be reported as a case file that did not evaluate - instead of exhausting the machine)."""
+    import resource
+
+    soft, hard = resource.getrlimit(resource.RLIMIT_AS)
+    cap = 8 << 30
+    try:
+        if hard == resource.RLIM_INFINITY or cap <= hard:
+            resource.setrlimit(resource.RLIMIT_AS, (cap, hard))
+        return core.coq_eval_many(ctx, files, timeout=600, par=8)
+    finally:
+        resource.setrlimit(resource.RLIMIT_AS, (soft, hard))
+
+
 def evaluate(ctx: Ctx, cases, tag="c", per=40, workers=8):
     """Run the implementation and let Coq compare / judge.  Returns (pairs, mismatch idx set, violation idx set)."""
     obs = core.run_driver(ctx, "c15", cases, workers=workers)
@@ -460,18 +812,23 @@ def evaluate(ctx: Ctx, cases, tag="c", per=40, workers=8):
             ctx.broken.append(Broken("correspondence", "implementation driver failed", str(o)[:600], c))
             continue
         pairs.append((c, o))
-    files = {}
-    for k in range(0, len(pairs), per):
-        files[f"{tag}_{k // per:03d}"] = emit_file(pairs[k:k + per])
-    res = core.coq_eval_many(ctx, files, timeout=900, par=8)
+    # chunks: CDM cases run long exact-arithmetic chains, so they go into smaller files (more parallelism)
+    files, starts, k = {}, {}, 0
+    while k < len(pairs):
+        size = 10 if pairs[k][0]["kind"] == "cdm" else per
+        name = f"{tag}_{len(files):03d}"
+        files[name] = emit_file(pairs[k:k + size])
+        starts[name] = k
+        k += size
+    res = coq_eval_limited(ctx, files)
     mism, viol = set(), set()
-    for k, name in enumerate(sorted(files)):
+    for name in sorted(files):
         ok, evals, se = res[name]
         if not ok or len(evals) != 2:
             ctx.broken.append(Broken("correspondence", f"case file {name}.v did not evaluate", core.tail(se, 15)))
             continue
-        mism |= {k * per + i for i in core.parse_int_list(evals[0])}
-        viol |= {k * per + i for i in core.parse_int_list(evals[1])}
+        mism |= {starts[name] + i for i in core.parse_int_list(evals[0])}
+        viol |= {starts[name] + i for i in core.parse_int_list(evals[1])}
     return pairs, mism, viol
 
 
@@ -550,6 +907,30 @@ def run(ctx: Ctx):
         if c["kind"] == "cdm":
             ctx.dist("cdm_species", len(c["tr"]))
             ctx.dist("cdm_direction", c["direction"])
+            ctx.dist("cdm_line_length", len(c["frame"]) if c["direction"] == "parallel" else len(c["frame"][0]))
+            if "lines_out" in o:
+                gain = any(fx(b) > fx(a) for li, lo in zip(o["lines_in"], o["lines_out"]) for a, b in zip(li, lo))
+                loss = any(fx(b) < fx(a) for li, lo in zip(o["lines_in"], o["lines_out"]) for a, b in zip(li, lo))
+                ctx.dist("cdm_effect", ("capture" if loss else "") + ("+release into a later packet" if gain else "")
+                         or "none")
+                ctx.dist("cdm_model_tie", "beta=1 exact factors" if c.get("exact") else
+                         "any beta, factor table" if "tbls" in o else "specification only")
+        if c["kind"] == "collectp":
+            ctx.dist("charge_held", c["held"])
+        if c["kind"] == "fullwell" and c["path"] == "sources":
+            ctx.dist("fullwell_sources", c["rel"])
+        if c["kind"] == "qe":
+            ctx.dist("qe_path", c["path"] + ("/sampling" if c["sampling"] else "/product"))
+            if c["path"] == "select":
+                ctx.dist("qe_source", c["src"])
+            elif c["path"] == "map":
+                ctx.dist("qe_map", "in range" if c["map_in_range"] else "out of range")
+            else:
+                qv = c["q"]
+                ctx.dist("qe_value", "0" if qv == 0 else "1" if qv == 1 else "1/2" if qv == 0.5 else
+                         "small" if qv < 0.1 else "near 1" if qv > 0.99 else "other")
+        if c["kind"] == "cdm" and "corner" in c:
+            ctx.dist("cdm_corner", c["corner"] + (" -> refused" if "raise" in o else " -> ran"))
         if "raise" in o:
             ctx.dist("raised", c["kind"])
         if is_nontrivial(c):
@@ -572,7 +953,12 @@ def run(ctx: Ctx):
     ctx.cov["exhaustive"] = (not ctx.quick)
     if not ctx.quick:
         ctx.cov["exhaustive_scope"] = ("persistence, 1 and 2 species: densities {0,1/2,1} x time factors {1/2,1,2} x "
-                                       "capacities {none,4} x pixel {0,100} x initial trapped {0,40} per species")
+                                       "capacities {none,4} x pixel {0,100} x initial trapped {0,40} per species; "
+                                       "collection: every sequence of 1..3 container operations over {array, particles} "
+                                       "x particle offset {edge, centre} on 2x2; full well: argument {none,0,50,100,150,-1} "
+                                       "x characteristics {none,0,50,100,150}; photo-conversion: argument (8 values) x "
+                                       "characteristics (4) x sampling; CDM: bright packet at every position of lines of "
+                                       "3..5 packets x background {0,1,30} x direction x {1,2} species x 2 parameter vectors")
         ok, out = core.coqchk(ctx, "PyxelGen.C15_prop")
         ctx.cov["coqchk"] = "ok" if ok else core.tail(out, 6)
         if not ok:
@@ -621,15 +1007,18 @@ META = dict(
         "Coq theorems, for all inputs in the documented ranges, over exact-arithmetic (Q) per-pixel models of the code: "
         "collection adds exactly the charge; QE without sampling is exactly q*p in [0,p], with sampling (any draw with a "
         "binomial's range) an integer in [0, floor p]; full well = min and idempotent; the nine IPC weights read from "
-        "the source sum to 1 for all couplings and a constant frame of any shape is a fixed point; persistence with any "
-        "number of trap species: exact account pixel'+trapped'+lost = pixel+trapped with lost >= 0 the clipped excess of "
-        "all but the last species (so never creation, exact conservation for one species, non-negativity for all n, any "
-        "number of readouts) - the full conservation statement is REFUTED for n >= 2 by a proved witness (100 e- -> "
-        "68.75 e-) and the defect is found on the real functions; CDM (_partial): per-step 0 <= captured < pixel, "
+        "the source sum to 1 for all couplings and a constant frame of any shape is a fixed point; collection adds "
+        "exactly the generated charge whatever mixture of arrays and particles holds it (binning keeps every electron); "
+        "the full-well capacity and the quantum efficiency are the model argument when given, else the "
+        "characteristics'; persistence (model of the code repaired by the fix: commit for C15-F14) with ANY number of "
+        "trap species and any parameters: pixel'+trapped' = pixel+trapped exactly, for any number of readouts, and "
+        "nothing negative inside the documented ranges; CDM (_partial): per-step 0 <= captured < pixel, "
         "occupancy >= 0, pixel+occupancy non-increasing, lifted by induction over species, pixels and lines to any frame "
-        "in both directions, with the exp/pow factors abstract in their ranges (shown to hold for the real exp/Rpower). "
+        "in both directions and to every PREFIX of a line, with the exp/pow factors abstract in their ranges (shown to "
+        "hold for the real exp/Rpower); the wrapper's range checks, read from the source, make both divisors non-zero. "
         "The models are tied to the code by a fail-closed translator (IPC kernel and guards, collection statement, "
-        "full-well mask, QE expression) and by running the real functions on dyadic frames (exact float arithmetic) "
+        "full-well mask, QE expression, value selections and guards of simple_full_well / simple_conversion / cdm) "
+        "and by running the real functions on dyadic frames (exact float arithmetic) "
         "and comparing / judging the outputs inside Coq; for CDM with general parameters the implementation is only "
         "tested against the theorem's conclusion."),
     level_note=(
@@ -639,5 +1028,5 @@ META = dict(
         "carried by the theorem (1e-9 relative tolerance on the implementation side). One theorem "
         "(C15_cdm_real_factors) uses the standard real-number axioms; all others are closed under the global context."),
     technique="Coq proof over Q models + regenerated kernel/guard definitions + in-Coq correspondence/spec evaluation",
-    design_ref="DESIGN.md section 6, C15; section 7 F14",
+    design_ref="DESIGN.md section 6, C15; section 7 F14 (fixed), C15-cdm-nan (fixed)",
 )
